@@ -144,6 +144,7 @@ func (c *Ctx) namexRun() *nameVerdicts {
 				want = append(want, o.name)
 			}
 			m.steps = 0
+			noteSample("NAME.model/expressions", e)
 			r, out := callM(c, m, pt, "ParseString", parser, e)
 			if out.kind != "ok" {
 				note("discover-expression", "", fmt.Sprintf("ParseString(%q): %s", e, out.why))
